@@ -13,6 +13,9 @@ UNITS = ["src/occa/internal/c/types.cpp"]
 SCALARS = ["bool_", "int8_", "uint8_", "int16_", "uint16_", "int32_", "uint32_", "int64_", "uint64_", "float_", "double_"]
 CTYPE = {"bool": "bool_", "int8_t": "int8_", "uint8_t": "uint8_", "int16_t": "int16_", "uint16_t": "uint16_", "int32_t": "int32_",
          "uint32_t": "uint32_", "int64_t": "int64_", "uint64_t": "uint64_", "float": "float_", "double": "double_"}
+CANON = {"signed char": "int8_", "unsigned char": "uint8_", "short": "int16_", "unsigned short": "uint16_", "int": "int32_", "unsigned int": "uint32_",
+         "long": "int64_", "unsigned long": "uint64_", "long long": "int64_", "unsigned long long": "uint64_", "_Bool": "bool_"}
+CTYPE.update(CANON)
 SIZE = {"bool_": 1, "int8_": 1, "uint8_": 1, "int16_": 2, "uint16_": 2, "int32_": 4, "uint32_": 4, "int64_": 8, "uint64_": 8, "float_": 4, "double_": 8}
 # union member used to store each tag (a bool is stored in the int8_ member: one byte, same ABI)
 MEMBER = dict((t, t) for t in SCALARS)
